@@ -107,10 +107,24 @@ RecProgs(k) ==
     \* a parameter named _ is a parameter like any other: arguments are bound by position
     underscore |-> <<Let("snd", FnLit(<<"_", "v">>, <<Ret(Id("v"))>>)), Let("trd", FnLit(<<"_", "w", "n">>, <<Code(If(Id("w"), <<Ret(Id("n"))>>)), Ret(Str(<<"z">>))>>)),
                      Text(<<"[">>), Emit(Call("snd", <<Str(<<"a">>), IntL(k)>>)), Text(<<"|">>), Emit(Call("trd", <<IntL(1), Bool(TRUE), IntL(k)>>)), Text(<<"|">>), Emit(Call("trd", <<IntL(1), Bool(FALSE), IntL(k)>>)), Text(<<"]">>)>>,
+    \* ONE decision chain with else-if links whose conditions overlap: the FIRST link that holds decides
+    elif |-> <<Let("cl", FnLit(<<"m">>, <<Code(IfChain(Bin("<", Id("m"), IntL(1)), <<Ret(Str(<<"z">>))>>,
+                                                      <<[c |-> Bin("<", Id("m"), IntL(3)), b |-> <<Ret(Str(<<"s">>))>>], [c |-> Bin("<", Id("m"), IntL(5)), b |-> <<Ret(Str(<<"m">>))>>],
+                                                        [c |-> Bin("<", Id("m"), IntL(9)), b |-> <<Ret(Str(<<"l">>))>>]>>,
+                                                      <<Ret(Str(<<"b">>))>>, TRUE))>>)),
+               Text(<<"[">>), Emit(Call("cl", <<IntL(k)>>)), Text(<<"|">>), Emit(Call("cl", <<IntL(k + 4)>>)), Text(<<"]">>)>>,
+    \* an argument that is a field path: evaluated in the caller's scope as the path it is, although a variable (and the
+    \* caller's own parameter) named like its last segment is visible there
+    patharg |-> <<Let("Name", Str(<<"o", "t">>)),
+                  Let("greet", FnLit(<<"w">>, <<Ret(Bin("+", Str(<<"h", "i">>), Id("w")))>>)),
+                  Let("card", FnLit(<<"Name", "v">>, <<Ret(Call("greet", <<Dot(Id("v"), "Name")>>))>>)),
+                  Text(<<"[">>), Emit(Call("greet", <<Dot(Id("u"), "Name")>>)), Text(<<"|">>), Emit(Call("card", <<IntL(k), Id("u")>>)), Text(<<"|">>), Emit(Call("greet", <<Id("Name")>>)), Text(<<"]">>)>>,
     \* the name at a call site is bound to another function between two executions of that call (loop variable)
     rebind |-> <<Let("inc", FnLit(<<"m">>, <<Ret(Bin("+", Id("m"), IntL(1)))>>)), Let("dbl", FnLit(<<"m">>, <<Ret(Bin("*", Id("m"), IntL(2)))>>)),
                 Text(<<"[">>), Emit(For("", "w", Arr(<<Id("inc"), Id("dbl"), Id("inc")>>), <<Emit(Call("w", <<IntL(k)>>)), Text(<<";">>)>>)), Text(<<"]">>)>> ]
-RecNames == {"sum", "down", "fib", "after", "twice", "apply", "compose", "rebind", "nestarg", "retarr", "siblings", "manycalls", "retnil", "zeroparam", "noret", "underscore"}
+\* u: a struct value with a field Name (patharg)
+RecData == [u |-> Rec([Name |-> S(<<"m", "k">>)])]
+RecNames == {"sum", "down", "fib", "after", "twice", "apply", "compose", "rebind", "nestarg", "retarr", "siblings", "manycalls", "retnil", "zeroparam", "noret", "underscore", "elif", "patharg"}
 RECURSIVE Fib(_)
 Fib(k) == IF k < 2 THEN k ELSE Fib(k - 1) + Fib(k - 2)
 RECURSIVE Rep(_, _)
@@ -132,6 +146,8 @@ RecText(nm, k) ==
     [] nm = "noret" -> <<"[", "|", "o", "u", "t", "|", "A", "|", "o", "u", "t", "|", "o", "u", "t", "]">>
     [] nm = "underscore" -> <<"[">> \o IntChars(k) \o <<"|">> \o IntChars(k) \o <<"|", "z", "]">>
     [] nm = "zeroparam" -> <<"[", "5", "1", "|">> \o IntChars(k) \o <<"|", "-", "|", "5", "1", "]">>
+    [] nm = "elif" -> LET Cl(m) == IF m < 1 THEN "z" ELSE IF m < 3 THEN "s" ELSE IF m < 5 THEN "m" ELSE IF m < 9 THEN "l" ELSE "b" IN <<"[", Cl(k), "|", Cl(k + 4), "]">>
+    [] nm = "patharg" -> <<"[", "h", "i", "m", "k", "|", "h", "i", "m", "k", "|", "h", "i", "o", "t", "]">>
     [] nm = "rebind" -> <<"[">> \o IntChars(k + 1) \o <<";">> \o IntChars(2 * k) \o <<";">> \o IntChars(k + 1) \o <<";", "]">>
 
 VARIABLES n, links, dflt, args, use, res
@@ -143,7 +159,7 @@ Prog == CallerLets \o <<Let("f", FnLit(SubSeq(PNames, 1, n), Body(links, dflt)))
 Init == \/ /\ n \in 0..MaxParams /\ links = <<>> /\ dflt = NoRet /\ args = <<>> /\ use = "none" /\ res = [k |-> "none"]
         \/ \E nm \in RecNames, k \in 0..5 :      \* recursion family: n = -1, use = name, args = <<k>>
               /\ n = -1 /\ links = <<>> /\ dflt = NoRet /\ args = <<k>> /\ use = nm
-              /\ res = Run(RecProgs(k)[nm], WithHelpers(EmptyScope), EmptyScope, "")
+              /\ res = Run(RecProgs(k)[nm], WithHelpers(RecData), EmptyScope, "")
 AddLink == /\ n >= 0 /\ dflt = NoRet /\ Len(links) < MaxLinks /\ (n = 3 => Len(links) < 1)
            /\ \E c \in Conds(n), r \in Rets(n) : links' = Append(links, [c |-> c, r |-> r])
            /\ UNCHANGED <<n, dflt, args, use, res>>
@@ -200,6 +216,6 @@ Expect(r) == CASE r.k = "out" -> [k |-> "out", pieces |-> r.pieces, log |-> r.lo
                [] OTHER       -> [k |-> "unspec"]
 
 EmitCase == res.k = "none" \/
-            PrintT("CASE " \o ToJson([gen |-> "GenFuncs", src |-> Unparse(IF n = -1 THEN RecProgs(args[1])[use] ELSE Prog), data |-> EmptyScope,
+            PrintT("CASE " \o ToJson([gen |-> "GenFuncs", src |-> Unparse(IF n = -1 THEN RecProgs(args[1])[use] ELSE Prog), data |-> IF n = -1 THEN RecData ELSE EmptyScope,
                                        shape |-> use \o ":" \o ToString(n) \o ":" \o ToString(IF n = -1 THEN args[1] ELSE Len(links)), expect |-> Expect(res)]))
 =============================================================================
